@@ -7,6 +7,7 @@ import (
 	"encoding/json"
 	"fmt"
 	"regexp"
+	"sort"
 	"strings"
 	"testing"
 	"time"
@@ -59,8 +60,37 @@ func genCfgSide(r *vh.Rand, ls []KV, min int) []M {
 		}
 		out = append(out, m)
 	}
+	// matchers lists with several matchers on the SAME label and the same value text under different operators,
+	// exact duplicates, and the same matcher written with different quoting
+	if r.Chance(2, 5) {
+		base := out[r.Intn(len(out))]
+		base.F = "matchers"
+		k := r.Range(1, 2)
+		for i := 0; i < k; i++ {
+			tw := base
+			switch r.Intn(4) {
+			case 0, 1: // another operator on the same name and value text
+				tw.T = (base.T + 1 + r.Intn(3)) % 4
+				if tw.T >= 2 {
+					if _, err := regexp.Compile("^(?:" + string(tw.V) + ")$"); err != nil {
+						tw.T -= 2
+					}
+				}
+			case 2: // exact duplicate
+			default: // the same matcher, bare instead of quoted when the value allows it
+				tw.F = "matchers_bare"
+			}
+			out = append(out, tw)
+		}
+		if base.F == "matchers" && r.Chance(1, 2) {
+			out = append(out, base)
+		}
+		vh.Shuffle(r, out)
+	}
 	return out
 }
+
+var bareOK = regexp.MustCompile(`^[a-zA-Z0-9_.:+*|()\[\]^$-]+$`)
 
 // satisfy rewrites the label set so that (most of) the side's positive matchers hold for it, so that the inhibitor
 // really has a firing source and matching targets to decide about
@@ -142,6 +172,13 @@ func cfgSideYAML(indent, prefix string, ms []M) string {
 			eq = append(eq, yamlStr(string(m.N))+": "+yamlStr(string(m.V)))
 		case "match_re":
 			re = append(re, yamlStr(string(m.N))+": "+yamlStr(string(m.V)))
+		case "matchers_bare":
+			lm := &labels.Matcher{Type: labels.MatchType(m.T), Name: string(m.N), Value: string(m.V)}
+			if bareOK.Match(m.V) && bareOK.Match(m.N) {
+				lst = append(lst, yamlStr(string(m.N)+" "+lm.Type.String()+" "+string(m.V)))
+			} else {
+				lst = append(lst, yamlStr(lm.String()))
+			}
 		default:
 			lm := &labels.Matcher{Type: labels.MatchType(m.T), Name: string(m.N), Value: string(m.V)}
 			lst = append(lst, yamlStr(lm.String()))
@@ -245,6 +282,38 @@ func runCfg(t *testing.T, run *vh.Run, c *Case) {
 			}
 		}
 	}
+	// the matchers lists as loaded: the same multiset of (type, name, value) as written
+	loadedOK := func(what string, written []M, loaded labels.Matchers) {
+		var w, l []string
+		twins := false
+		seen := map[string]int{}
+		for _, m := range written {
+			if m.F == "matchers" || m.F == "matchers_bare" {
+				w = append(w, fmt.Sprintf("%d %q %q", m.T, m.N, m.V))
+				k := fmt.Sprintf("%q %q", m.N, m.V)
+				seen[k]++
+				if seen[k] > 1 {
+					twins = true
+				}
+			}
+		}
+		for _, m := range loaded {
+			l = append(l, fmt.Sprintf("%d %q %q", m.Type, m.Name, m.Value))
+		}
+		sort.Strings(w)
+		sort.Strings(l)
+		if twins {
+			run.Count("config_matchers_list", what+": several matchers on the same label and value text")
+		} else {
+			run.Count("config_matchers_list", what+": distinct label/value pairs")
+		}
+		if strings.Join(w, "|") != strings.Join(l, "|") {
+			run.Violate("config-matchers-loaded-differ:"+what, fmt.Sprintf("%s: written %v, loaded %v\n%s", what, w, l, text), c)
+		}
+	}
+	loadedOK("source_matchers", c.RSrc, labels.Matchers(cfg.InhibitRules[0].SourceMatchers))
+	loadedOK("target_matchers", c.RTgt, labels.Matchers(cfg.InhibitRules[0].TargetMatchers))
+	loadedOK("route matchers", c.Rt, labels.Matchers(cfg.Route.Routes[0].Matchers))
 	// both sides of the rule as inhibit.NewInhibitRule builds them
 	rule := inhibit.NewInhibitRule(cfg.InhibitRules[0])
 	record("S.src", "inhibit rule source side on the source alert", []bool{rule.SourceMatchers.Matches(sls)}, []bool{sideHolds(c.RSrc, sls)})
